@@ -115,6 +115,10 @@ func (cr *serverConnReader) runInner() error {
 }
 
 func (cr *serverConnReader) handleTunneling(in io.ReadWriter) (io.ReadWriter, error) {
+	// the first bytes (and the TLS handshake, and the head of a HTTP request)
+	// are read here, before the read loop sets its own deadlines.
+	cr.sc.nconn.SetReadDeadline(time.Now().Add(cr.sc.s.IdleTimeout))
+
 	rr := &rewindablereader.Reader{R: in}
 
 	buf := make([]byte, 4)
